@@ -201,6 +201,19 @@ def gen_case(rnd):
     f = g.term(BOOL if g.pct(70) else g.ty())
     cards = g.cards()
     kind = g.weighted([(5, "symbols"), (4, "terms"), (3, "interp"), (1, "capture")])
+    if kind == "interp" and g.pct(70):
+        # make sure an application of a function with two parameters of one sort occurs (possibly under the
+        # formula's binders): its actual arguments are terms over the formula's symbols
+        T = g.choice([INT, REAL, BV(2), BOOL, INT])
+        R = g.choice([T, BOOL, INT])
+        ft_ = ("Fun", R, (T, T))
+        ap = ("FUNCTION", ("fi2_%s_%s" % (B.tystr(T), B.tystr(R)), ft_), (g.term(T, 2), g.term(T, 2)))
+        atom = ap if R == BOOL else ("EQUALS", (), (ap, g.term(R, 1)))
+        try:
+            fb_ = f if reftype(f) == BOOL else ("EQUALS", (), (f, f))
+        except IllTyped:
+            fb_ = atom
+        f = ("AND", (), (atom, fb_)) if g.pct(50) else ("OR", (), (fb_, ("NOT", (), (atom,))))
     keys, vals, idefs = [], [], []
     allsyms = sorted((s for s in all_symbols(f) if not is_fun(s[1])), key=repr)
     if kind in ("symbols", "capture"):
@@ -263,6 +276,18 @@ def gen_case(rnd):
                     else:
                         named.append(params[i])
                 params = named
+                # a later formal parameter named like a symbol of an earlier actual argument (binding the
+                # parameters one after the other would rewrite that argument again)
+                apps = [x for x in subterms(f) if x[0] == "FUNCTION" and x[1][0] == fn]
+                if apps and len(params) >= 2 and g.pct(70):
+                    ap = g.rnd.choice(apps)
+                    for j in range(1, len(params)):
+                        earlier = set()
+                        for a_ in ap[2][:j]:
+                            earlier |= {s_ for s_ in reffv(a_) if s_[1] == ft[2][j]}
+                        earlier -= set(params[:j]) | set(params[j + 1:])
+                        if earlier:
+                            params[j] = g.rnd.choice(sorted(earlier, key=repr))
             # body over the formal parameters only
             body = gr.term(ft[1], 2)
             # rename the symbols of the body to formal parameters of the same type where possible
